@@ -196,6 +196,15 @@ func codecPairs(encName string, versions []kmip.ProtocolVersion) func() {
 				if panicked {
 					failed++
 				}
+				// the same through the package-level helper: Marshal(poison) panics and is recovered, then Marshal(B)
+				func() {
+					defer func() { _ = recover() }()
+					_ = e.marshal(p)
+				}()
+				if got := string(e.marshal(ms[j])); got != refs[j] {
+					mc.Failf("codec-result-depends-on-history: Marshal(%s) (%s) right after a Marshal call that failed half-way (poison %d) gives %s, alone it gives %s", names[j], e.name, pi, short(showDoc(got)), short(showDoc(refs[j])))
+					return
+				}
 				enc.Clear()
 				enc.Any(ms[j])
 				if got := string(enc.Bytes()); got != refs[j] {
